@@ -3,7 +3,7 @@
    Every statement quantifies over ALL byte contents, lengths and capacities of the Go slice
    ([wf]: len <= cap, which holds for every Go slice) and all integer arguments. *)
 From PV Require Import Base.Prelude Base.Slice Model.DNS Model.DNSMerge Model.DNSRecords Model.DNSNbns
-     Proofs.DNS Proofs.DNSRecords.
+     Proofs.DNS Proofs.DNSRecords Proofs.DNSNbns.
 Open Scope N_scope.
 
 (* decodeName(data, offset, buffer, 1): the recursion is bounded by maxRecursionLevel, the label
@@ -50,6 +50,11 @@ Print Assumptions C08_parseNodeNameArray_total.
 Theorem C08_nbns_answer_name_total : forall b, wf b -> safe (nbns_answer_name b).
 Proof. exact nbns_answer_name_total. Qed.
 Print Assumptions C08_nbns_answer_name_total.
+
+(* decodeNBNSName on any buffer of any length and capacity *)
+Theorem C08_decodeNBNSName_total : forall buf, wf buf -> safe (decodeNBNSName buf).
+Proof. exact decodeNBNSName_total. Qed.
+Print Assumptions C08_decodeNBNSName_total.
 
 (* non-vacuity: a 29-byte query for www.example.com decodes; the input that used to panic
    (question name ending at the end of the buffer, no spare capacity) is now an error *)
